@@ -422,6 +422,32 @@ pub unsafe extern "C" fn statx(dirfd: c_int, path: *const std::os::raw::c_char, 
     }
 }
 
+/// `isatty` (behind `std::io::IsTerminal`): whether a standard stream of a simulated caller thread
+/// is a terminal changes with the environment epoch (a change might colour its messages).
+#[no_mangle]
+pub unsafe extern "C" fn isatty(fd: c_int) -> c_int {
+    let env = active();
+    if !env.is_null() {
+        let mut st = (*env).lock().unwrap_or_else(|e| e.into_inner());
+        st.env_reads_total += 1;
+        st.env_names.insert(format!("<isatty {fd}>"));
+        if crate::rng::mix(&[0x77u64, fd as u64, st.env_seed, st.env_epoch]) % 2 == 0 {
+            return 1;
+        }
+        *__errno_location() = 25; // ENOTTY
+        return 0;
+    }
+    // TCGETS
+    let mut termios = [0u8; 64];
+    let r = syscall(16, fd as c_long, 0x5401 as c_long, termios.as_mut_ptr());
+    if r == 0 {
+        1
+    } else {
+        *__errno_location() = (-r) as c_int;
+        0
+    }
+}
+
 /// The working directory (`std::env::current_dir`): for simulated caller threads one of three
 /// directories, chosen by the environment epoch (a change might make relative output file names
 /// absolute at compile time).
